@@ -43,7 +43,9 @@ Definition kind_of (i : Z) (o : op) : kind :=
      4 the pull releases only when the link was heard from within the window, or is
        disconnected (or reset / guard off)
      5 nothing but a decision or a reset of this link releases the latch
-     6 nothing but a decision or a reset of this link releases the pull *)
+     6 nothing but a decision or a reset of this link releases the pull
+     7 a reset of the link (soft or full) leaves no delivery proof behind: "has never produced
+       delivery proof" is judged since the link's last reset *)
 Definition mon_step (rs : option Z) (k : kind) (pre post : link) : option Z * N :=
   let lat0 := latched pre in
   let lat1 := latched post in
@@ -66,7 +68,7 @@ Definition mon_step (rs : option Z) (k : kind) (pre post : link) : option Z * N 
         (4%N, negb (g_pulled (lg pre) && negb (g_pulled (lg post))) || negb (a_conn a) ||
               match a_lastrecv a with Some lr => ssub now lr <? spec_window pre cfg | None => false end)])
     else (None, first_clause [(1%N, no_engage); (2%N, seen)])
-  | KReset => (None, first_clause [(1%N, no_engage); (2%N, seen)])
+  | KReset => (None, first_clause [(1%N, no_engage); (2%N, seen); (7%N, a_proof (la post) =? 0)])
   | KOther => (rs, first_clause [(1%N, no_engage); (2%N, seen); (5%N, negb lat0 || lat1);
                                  (6%N, negb (g_pulled (lg pre)) || g_pulled (lg post))])
   end.
